@@ -88,7 +88,8 @@ func genC18(t *rapid.T) *C18Case {
 	c.ReadMode = rapid.SampledFrom([]string{"all", "all", "part", "none", "zero-then-all"}).Draw(t, "readmode")
 	c.ReadPart = rapid.IntRange(1, 10).Draw(t, "readpart")
 	c.Code = rapid.SampledFrom([]int{0, 200, 201, 404, 500, 204, 304}).Draw(t, "code")
-	c.CType = rapid.SampledFrom([]string{"text/plain", "text/plain", "image/png", ""}).Draw(t, "ctype")
+	// media types are case-insensitive and may carry parameters, with or without blanks around the ";"
+	c.CType = rapid.SampledFrom([]string{"text/plain", "text/plain", "image/png", "", "Text/Plain", "text/plain; charset=utf-8", "text/plain ; charset=utf-8", "TEXT/PLAIN;charset=UTF-8", "text/plainer"}).Draw(t, "ctype")
 	c.ExtraHdr = rapid.SampledFrom([]string{"", "v1", "a, b"}).Draw(t, "extrahdr")
 	c.HeadBefore = rapid.Bool().Draw(t, "headbefore")
 	if c.Code != 204 && c.Code != 304 {
@@ -455,7 +456,12 @@ func checkC18(c *C18Case) Result {
 		return out
 	}
 	// ---- response phases
-	processable := (c.RespAccess || c.CtlRespAccess > 0) && c.CType == "text/plain"
+	mediaType, _, _ := strings.Cut(c.CType, ";")
+	isTextPlain := strings.EqualFold(strings.TrimSpace(mediaType), "text/plain")
+	processable := (c.RespAccess || c.CtlRespAccess > 0) && isTextPlain
+	if isTextPlain && c.CType != "text/plain" {
+		out.Labels = append(out.Labels, "content-type-in-another-spelling")
+	}
 	if c.CtlRespAccess > 0 {
 		out.Labels = append(out.Labels, "response-body-access-switched-on-by-ctl")
 	}
